@@ -3,6 +3,7 @@ Driver.Popen — line protocol over Model.Popen for tools/props/c17.py.
 
   enum <variant> <cfg> <rot> <delays> <max>   ->  ok <total> <sched>|<sched>|...      (at most <max> schedules listed)
   run  <variant> <cfg> <labels>               ->  ok <E0>;<E1>;...;<En> # <final state>   |  stuck <index>
+  pipe <coreHit> <isRefined> <changes> <reply1> <reply2>  ->  ok <outcome> <number of jobs>     (solve_end_to_end)
   witness <name> <variant>                    ->  ok <variant> <cfg> <labels> | none     (the schedules of the `_cex` theorems)
 
   variant : three characters 0/1 = submitLocked cancelFlag joinFixed
@@ -148,6 +149,12 @@ def runTrace (v : Variant) (c : Cfg) : State → List Label → Nat → List Str
     | some σ' => runTrace v c σ' ls (i + 1) (acc ++ [showEnabled v c σ])
     | none => s!"stuck {i}"
 
+def parseReply (s : String) : Option Reply :=
+  match s with
+  | "satValid" => some .satValid | "satInvalid" => some .satInvalid | "unsat" => some .unsat
+  | "unknown" => some .unknown | "hang" => some .hang | "crash" => some .crash | "garbage" => some .garbage
+  | "noStart" => some .noStart | _ => none
+
 def handle (line : String) : String :=
   match (line.splitOn " ").filter (· ≠ "") with
   | ["enum", v, c, rot, delays, max] =>
@@ -171,6 +178,12 @@ def handle (line : String) : String :=
       | some (c, ls) => s!"ok {showVariant v} {showCfg c} {showSched ls}"
       | none => "none"
     | none => "bad-args"
+  | ["pipe", core, refined, changes, r1, r2] =>
+    match parseBool01 (core.toList.headD 'x'), parseBool01 (refined.toList.headD 'x'), parseBool01 (changes.toList.headD 'x'),
+          parseReply r1, parseReply r2 with
+    | some c, some r, some ch, some a, some b =>
+      s!"ok {showOut (pipeline c r ch a b)} {pipelineJobs c r ch a}"
+    | _, _, _, _, _ => "bad-args"
   | _ => "bad-op"
 
 partial def loop (h : IO.FS.Stream) (out : IO.FS.Stream) : IO Unit := do
